@@ -519,6 +519,11 @@ impl World {
     pub fn drop_vec(&mut self, sink: &mut Sink) {
         assert!(self.txn.is_none());
         self.final_state = Some(self.contents());
+        // half of the time the vector is consumed by `into_inner` instead of being dropped: the same end for the subscribers
+        if self.final_state.as_ref().map(|v| v.len() % 2 == 0).unwrap_or(false) {
+            let inner: Vec<V> = self.ov.take().unwrap().into_inner().into_iter().collect();
+            if Some(&inner) != self.final_state.as_ref() { sink.oracle_fail("C17,C08", &format!("into_inner returned {inner:?}, the contents were {:?}", self.final_state)); }
+        }
         self.ov = None;
         for (i, s) in self.subs.iter().enumerate() {
             if let Some(s) = s {
